@@ -315,11 +315,14 @@ def enum_file_long(tier, shard, nshards, rng):
 # ---- rejection of bad files -----------------------------------------------------------------------------
 
 
+BAD_TEXTS = ["", "\n", "\n5\n", "abc\n", "-1\n", "-0\n", "+3\n", "1.0\n", "0x1\n", "1e1\n", "1 2\n", "one\n", "--\n", "1,0\n", "1_0\n", "1_2_3\n", "0_0\n", " 1\n", "\t1\n", "1a\n", "1-\n", "0b1\n", "1.\n", "1;\n"]
+
+
 def st_bad():
     def for_width(w):
         mod = 1 << w
         bad_text = st.one_of(
-            st.sampled_from(["", "\n", "\n5\n", "abc\n", "-1\n", "-0\n", "+3\n", "1.0\n", "0x1\n", "1e1\n", "1 2\n", "one\n", "--\n", "1,0\n", "1_0\n", "1_2_3\n", "0_0\n", " 1\n", "\t1\n", "1a\n", "1-\n", "0b1\n", "1.\n", "٣\n" if False else "1;\n"]).map(lambda s: {"text": s}),
+            st.sampled_from(BAD_TEXTS).map(lambda s: {"text": s}),
             st.one_of(st.just(mod), st.just(mod + 1), st.integers(mod, mod * 4 + 10), st.just(mod * 10**9 + 7)).map(lambda v: {"text": f"{v}\n"}),
             st.sampled_from(["ff0a", "c3280a", "80", "fffe300a", "e2820a"]).map(lambda h: {"hex": h}),
         )
@@ -423,6 +426,19 @@ CLAUSES = [
         classify=lambda c: [f"width {c['width']}"] + (["restart at every call"] if len(c["restarts"]) == c["calls"] else []),
         required=["width 14", "width 7", "width 16", "width 32", "width 54", "width 64", "width 72", "width 128", "restart at every call"],
         shards={"quick": 4, "thorough": 16},
+    ),
+    Clause(
+        id="C19.reject.listed",
+        doc="every listed unreadable / near-numeric / out-of-range content (and the invalid UTF-8 samples) x widths 3, 14, 64 x 0 or 2 calls before: ValueError, file untouched",
+        kind="enum",
+        enum=lambda tier, shard, nshards, rng: (
+            {"k": "content", "width": w, "bad": bad, "calls_before": cb}
+            for i, (w, bad, cb) in enumerate((w, bad, cb) for w in (3, 14, 64) for cb in (0, 2)
+                                              for bad in [{"text": t} for t in BAD_TEXTS] + [{"text": f"{(1 << w) + d}\n"} for d in (0, 1)] + [{"hex": h} for h in ("ff0a", "c3280a", "80", "fffe300a", "e2820a")])
+            if i % nshards == shard
+        ),
+        check=check_bad, classify=_cls_bad, required=["invalid utf-8", "empty", "negative", "out of range", "non-numeric"], shards={"quick": 2, "thorough": 2},
+        exhaustive_note="the complete list of bad contents of this module, each at widths 3, 14 and 64",
     ),
     Clause(
         id="C19.reject",
